@@ -459,64 +459,7 @@ func runC02(c *engine.Ctx) {
 	c.Floor(n, 2)
 
 	// ---- R6 ----
-	c.Rule("R6", "connectHandler: hijack; on a failed backend connection answer the not-found response and close the client; on success write the request to the backend before joining")
-	if f := fn(c, "pkg/util/vhost.HTTPReverseProxy.connectHandler"); f != nil {
-		createConn := method(c, "pkg/util/vhost", "HTTPReverseProxy", "CreateConnection")
-		c.AllPaths("pkg/util/vhost.HTTPReverseProxy.connectHandler", engine.PathCheck{Fn: f, Sink: engine.IsReturn,
-			Event: func(in ssa.Instruction) string {
-				call, ok := in.(ssa.CallInstruction)
-				if !ok {
-					return ""
-				}
-				if cl, ok := in.(*ssa.Call); ok && calleeIs(cl, "golib/io", "Join") {
-					return "join"
-				}
-				if g, ok := in.(*ssa.Go); ok {
-					if o := engine.CalleeObj(g); o != nil && o.Name() == "Join" {
-						return "join"
-					}
-				}
-				o := engine.CalleeObj(call)
-				if o == nil {
-					return ""
-				}
-				switch o.Name() {
-				case "Hijack":
-					return "hijack"
-				case "NotFoundResponse":
-					return "not-found"
-				case "Close":
-					return "close"
-				case "Write":
-					if o.Pkg() != nil && o.Pkg().Path() == "net/http" && len(engine.CallArgs(call)) == 2 {
-						if engine.IsNamed(engine.CallArgs(call)[0].Type(), "net/http", "Request") {
-							return "request-written"
-						}
-					}
-				}
-				return ""
-			},
-			Pred: func(st *engine.PathState) string {
-				isNil, known := st.IsNil(extractOf(createConn, 1))
-				if !known {
-					return "" // exits before the backend connection is attempted (hijack failures)
-				}
-				if !st.HasEvent("hijack") {
-					return "the tunnel is set up without hijacking the client connection"
-				}
-				if !isNil {
-					if !st.HasEvent("not-found") || !st.HasEvent("close") {
-						return "a failed backend connection is not answered with the not-found response and a closed client connection (the user hangs)"
-					}
-					return ""
-				}
-				if !(st.HasEvent("request-written") && st.HasEvent("join") && st.EventIndex("request-written") < st.EventIndex("join")) {
-					return "the CONNECT request is not written to the backend before the streams are joined"
-				}
-				return ""
-			}}, "CONNECT path is complete")
-		c.Floor(1, 1)
-	}
+	checkConnectHandler(c, "R6")
 
 	// ---- R7 ----
 	checkStacks(c, "R7")
@@ -623,6 +566,13 @@ func runC02(c *engine.Ctx) {
 
 	// ---- R12 one request waiting for its backend does not hold a lock the other requests need (shared with C16.R23) ----
 	checkNoWaitUnderLock(c, engine.AnalyzeLocks(c.P), "R12")
+
+	// ---- R13 ----
+	checkRequestUntouchedOutsideHooks(c, "R13")
+
+	// ---- R14 the route table and the slices stored in it are read under the router lock (shared with C16.R1): a lookup that
+	// walks a location list while a registration re-sorts it misses the catch-all route — no header rewrite, not-found page ----
+	c16MapsRule(c, engine.AnalyzeLocks(c.P), "R14")
 }
 
 func keysOf(m map[string]bool) []string {
@@ -632,4 +582,180 @@ func keysOf(m map[string]bool) []string {
 	}
 	sort.Strings(out)
 	return out
+}
+
+// checkRequestUntouchedOutsideHooks (R13): between the listener and the reverse proxy's Rewrite hook the request is only
+// read — the serving path (pkg/util/vhost and the http-facing client plugins, outside the hooks R1 frames) never stores
+// into a field of the *http.Request it forwards (Body, ContentLength, Method, URL, Header, …). A body swapped for a
+// buffered, length-limited copy silently truncates uploads whose length is not declared.
+func checkRequestUntouchedOutsideHooks(c *engine.Ctx, rule string) {
+	c.Rule(rule, "outside the Rewrite hooks, no function of pkg/util/vhost or pkg/plugin/client stores into a field of an *http.Request (Body, GetBody, ContentLength, Method, URL, Host, Header…): method, target, headers and body pass to the hook as they came")
+	p := c.P
+	n, stores := 0, 0
+	for _, f := range p.RepoFuncs() {
+		if f.Pkg == nil {
+			continue
+		}
+		pp := f.Pkg.Pkg.Path()
+		if pp != engine.ModPath+"/pkg/util/vhost" && pp != engine.ModPath+"/pkg/plugin/client" {
+			continue
+		}
+		n++
+		// Rewrite hooks are framed by R1
+		isHook := false
+		for g := f; g != nil; g = g.Parent() {
+			if up := userParams(g); len(up) == 1 {
+				if nn := engine.NamedOf(up[0].Type()); nn != nil && nn.Obj().Name() == "ProxyRequest" {
+					isHook = true
+				}
+			}
+		}
+		if isHook {
+			continue
+		}
+		f := f
+		engine.ForEachInstr(f, func(in ssa.Instruction) {
+			// header edits on a request that was handed in (Header.Del / Set / Add)
+			if call, ok := in.(*ssa.Call); ok {
+				// (the forward-proxy plugin http_proxy strips hop-by-hop headers from the request it re-issues itself: only the
+				// vhost serving path, where the check and the route selection read the headers, is in scope)
+				if o := engine.CalleeObj(call); pp == engine.ModPath+"/pkg/util/vhost" && o != nil && o.Pkg() != nil && o.Pkg().Path() == "net/http" && (o.Name() == "Del" || o.Name() == "Set" || o.Name() == "Add") {
+					if a := engine.CallArgs(call); len(a) > 0 && engine.IsNamed(a[0].Type(), "net/http", "Header") {
+						onReq, own, isReqHeader := false, false, false
+						if hf, base := engine.LoadedField(engine.Unwrap(a[0])); hf != nil && hf.Name() == "Header" && base != nil && engine.IsNamed(base.Type(), "net/http", "Request") {
+							onReq, isReqHeader = true, true
+							bsrc := engine.Provenance(base, engine.ProvOpts{NoArgs: true})
+							for o2 := range bsrc.Calls {
+								if o2.Pkg() != nil && o2.Pkg().Path() == "net/http" && strings.HasPrefix(o2.Name(), "NewRequest") {
+									own = true
+								}
+							}
+							for v := range bsrc.Values {
+								if _, isAl := v.(*ssa.Alloc); isAl && len(bsrc.Params) == 0 {
+									own = true
+								}
+							}
+						}
+						if onReq && isReqHeader && !own {
+							stores++
+							c.Violate(fmt.Sprintf("%s>request.Header.%s", p.FuncName(f), o.Name()), in.Pos(), nil,
+								"a header of the forwarded request is edited (%s) outside the Rewrite hook: the credential check and the route selection both read the request's headers, an edit between them makes them disagree", o.Name())
+						}
+					}
+				}
+				return
+			}
+			st, ok := in.(*ssa.Store)
+			if !ok {
+				return
+			}
+			fa, ok := st.Addr.(*ssa.FieldAddr)
+			if !ok || !engine.IsNamed(fa.X.Type(), "net/http", "Request") {
+				return
+			}
+			if _, local := fa.X.(*ssa.Alloc); local {
+				return // a request this function builds itself
+			}
+			// requests made by http.NewRequest* here are this function's own
+			if src := engine.Provenance(fa.X, engine.ProvOpts{NoArgs: true}); len(src.Params) == 0 && len(src.Fields) == 0 {
+				ownReq := false
+				for o := range src.Calls {
+					if o.Pkg() != nil && o.Pkg().Path() == "net/http" && strings.HasPrefix(o.Name(), "NewRequest") {
+						ownReq = true
+					}
+				}
+				if ownReq {
+					return
+				}
+			}
+			fname := engine.Deref(fa.X.Type()).Underlying().(*types.Struct).Field(fa.Field).Name()
+			if s, isC := engine.ConstString(st.Val); fname == "RequestURI" && isC && s == "" {
+				return // net/http demands an empty RequestURI on a request that is sent as a client request
+			}
+			stores++
+			c.Violate(fmt.Sprintf("%s>request.%s", p.FuncName(f), fname), in.Pos(), nil,
+				"the forwarded request's %s is overwritten before the Rewrite hook sees it (only the hooks may change a request, and only as R1 frames it)", fname)
+		})
+	}
+	c.Check(n >= 10, "request-untouched:scope", token.NoPos, n, nil, "positive control: %d functions of the serving packages examined, %d stores into a request found", n, stores)
+}
+
+// checkConnectHandler (C02.R6, shared as C11.R17): every exit of the CONNECT handler either hands both connections to the
+// join or answers and closes the hijacked client connection.
+func checkConnectHandler(c *engine.Ctx, rule string) {
+	c.Rule(rule, "connectHandler: hijack; on a failed backend connection answer the not-found response and close the client; on success write the request to the backend before joining")
+	if f := fn(c, "pkg/util/vhost.HTTPReverseProxy.connectHandler"); f != nil {
+		createConn := method(c, "pkg/util/vhost", "HTTPReverseProxy", "CreateConnection")
+		c.AllPaths("pkg/util/vhost.HTTPReverseProxy.connectHandler", engine.PathCheck{Fn: f, Sink: engine.IsReturn,
+			Event: func(in ssa.Instruction) string {
+				call, ok := in.(ssa.CallInstruction)
+				if !ok {
+					return ""
+				}
+				if cl, ok := in.(*ssa.Call); ok && calleeIs(cl, "golib/io", "Join") {
+					return "join"
+				}
+				if g, ok := in.(*ssa.Go); ok {
+					if o := engine.CalleeObj(g); o != nil && o.Name() == "Join" {
+						return "join"
+					}
+				}
+				o := engine.CalleeObj(call)
+				if o == nil {
+					return ""
+				}
+				switch o.Name() {
+				case "Hijack":
+					return "hijack"
+				case "NotFoundResponse":
+					return "not-found"
+				case "Close":
+					// the hijacked client connection, or something else (the backend connection)?
+					if a := engine.CallArgs(call); len(a) > 0 {
+						src := engine.Provenance(a[0], engine.ProvOpts{NoArgs: true})
+						for o2 := range src.Calls {
+							if o2.Name() == "Hijack" {
+								return "close"
+							}
+						}
+					}
+					return "close-backend"
+				case "Write":
+					if o.Pkg() != nil && o.Pkg().Path() == "net/http" && len(engine.CallArgs(call)) == 2 {
+						if engine.IsNamed(engine.CallArgs(call)[0].Type(), "net/http", "Request") {
+							return "request-written"
+						}
+					}
+				}
+				return ""
+			},
+			Pred: func(st *engine.PathState) string {
+				isNil, known := st.IsNil(extractOf(createConn, 1))
+				if !known {
+					return "" // exits before the backend connection is attempted (hijack failures)
+				}
+				if !st.HasEvent("hijack") {
+					return "the tunnel is set up without hijacking the client connection"
+				}
+				if !isNil {
+					if !st.HasEvent("not-found") || !st.HasEvent("close") {
+						return "a failed backend connection is not answered with the not-found response and a closed client connection (the user hangs)"
+					}
+					return ""
+				}
+				if !st.HasEvent("join") {
+					// the tunnel is given up after the backend connection was obtained (the request could not be written):
+					// the hijacked client connection must not be left open without a peer
+					if !st.HasEvent("close") {
+						return "the handler returns without joining and without closing the hijacked client connection: the user hangs"
+					}
+					return ""
+				}
+				if !(st.HasEvent("request-written") && st.EventIndex("request-written") < st.EventIndex("join")) {
+					return "the CONNECT request is not written to the backend before the streams are joined"
+				}
+				return ""
+			}}, "CONNECT path is complete")
+		c.Floor(1, 1)
+	}
 }
